@@ -49,6 +49,8 @@ class Sim:
         self.oracle_checks = 0
         self.faults_fired = {}
         self.stop_on_violation = True
+        self.in_sweep = False
+        self.snap_fn = None  # profile hook: digest of what the shared state reports (interrupt sweeps)
 
     # ------------------------------------------------------------------ bookkeeping
     def count(self, key, n=1):
@@ -85,8 +87,73 @@ class Sim:
                 out.append((i, v))
         return out
 
+    # ------------------------------------------------------------------ interrupt sweep
+    def run_sweep(self, op):
+        """F7 placed densely: before the op is executed normally, every line position k = 1, 2, ...
+        of THIS call is tried in a forked grandchild of the current state (interrupt at k, then the
+        op's probe ops with their oracles).  The parent's own state is not touched."""
+        from .proc import run_in_child
+
+        rows = []
+        for k in range(1, 400):
+            res = run_in_child(self._sweep_child, (op, k), timeout=20.0)
+            if not res["fired"]:
+                break
+            self.fired("F7.interrupt_sweep_point")
+            self.oracle_checks += res["oracle_checks"]
+            rows.append([k, res["where"], res["digest"], res["answers"]])
+            for h in res["known_hits"]:
+                if h["known"] not in [x["known"] for x in self.known_hits]:
+                    self.known_hits.append(h)
+            if res["violations"]:
+                v = res["violations"][0]
+                sig = dict(v["sig"], interrupted=op["k"][:40])
+                self.violation(v["oracle"], sig, op["i"], "[after KeyboardInterrupt at line event %d (%s) of %s] %s" % (k, res["where"], op["k"], v["detail"]))
+                break
+        self.count("sweeps")
+        self.user.setdefault("sweeps", {})[op["i"]] = rows
+
+    def _sweep_child(self, op, k):
+        self.in_sweep = True
+        n0 = len(self.violations)
+        c0 = self.oracle_checks
+        h0 = len(self.known_hits)
+        answers = []
+        fired = False
+        where = None
+        try:
+            op2 = {a: b for a, b in op.items() if a not in ("sweep", "probes")}
+            op2["intr"] = k
+            op2["f"] = "F7.interrupt"
+            self.execute(op2)
+            fired = self.interrupter.fired
+            where = "%s:%s" % (self.interrupter.where[1], self.interrupter.where[2]) if self.interrupter.where else None
+            if fired:
+                for n, probe in enumerate(op.get("probes", [])):
+                    pp = dict(probe)
+                    pp["i"] = 900000 + n
+                    self.execute(pp)
+                    answers.append(self.log[-1][3:5])
+        except StopRun:
+            pass
+        dg = None
+        if fired and self.snap_fn is not None:
+            try:
+                dg = self.snap_fn()
+            except Exception as e:
+                dg = "snapshot_raised:" + type(e).__name__
+        return {"fired": fired, "where": where, "violations": self.violations[n0:], "answers": answers, "digest": dg, "oracle_checks": self.oracle_checks - c0, "known_hits": self.known_hits[h0:]}
+
     # ------------------------------------------------------------------ one step
     def execute(self, op):
+        if op.get("sweep") and not self.in_sweep:
+            try:
+                self.run_sweep(op)
+            except StopRun:
+                # the op belongs to the recorded history although it never ran in this process
+                self.ops.append(op)
+                self.log.append([op["i"], op["k"], op.get("f"), "sweep_violation", None])
+                raise
         i = op["i"]
         self.step_no = i
         codec = Codec(self.pool)
@@ -178,6 +245,7 @@ class Sim:
             "cfg": self.cfg,
             "states": [self.user["state"]] if "state" in self.user else [],
             "user_regsnaps": self.user.get("regsnaps"),
+            "sweeps": self.user.get("sweeps"),
         }
 
 
